@@ -685,10 +685,19 @@ func genHistory(rnd *hx.Rand, n int) HCase {
 			h.Ops = append(h.Ops, HOp{Op: "age", Sel: rnd.Uint64()})
 		case x < 78:
 			h.Ops = append(h.Ops, HOp{Op: "ageall"})
-		case x < 90:
+		case x < 88:
 			h.Ops = append(h.Ops, HOp{Op: "cascade"})
-		default:
+		case x < 94:
 			h.Ops = append(h.Ops, HOp{Op: "l0ret"})
+		default:
+			// retention while the replica lags the database: compaction, every file old, one more
+			// commit synced locally but not uploaded, then the retention pass
+			h.Ops = append(h.Ops, HOp{Op: "compact", Arg: 1}, HOp{Op: "ageall"})
+			if rnd.Chance(70) {
+				h.Ops = append(h.Ops, HOp{Op: "l0retlag"})
+			} else {
+				h.Ops = append(h.Ops, HOp{Op: "cascadelag"})
+			}
 		}
 	}
 	return h
@@ -884,16 +893,30 @@ func runHistory(tmp string, drv *hx.Driver, h HCase, res *hx.Result) (kind, sig,
 				}
 			}
 			count("hist-" + op.Op)
-		case "cascade", "l0ret":
+		case "cascade", "l0ret", "cascadelag", "l0retlag":
 			if !synced {
 				continue
 			}
-			// bring the replica up to date so that "latest" is the source state
-			if err := x.db.Sync(ctx); err != nil {
-				return "", "", ""
-			}
-			if err := x.db.Replica.Sync(ctx); err != nil {
-				return "", "", ""
+			lag := strings.HasSuffix(op.Op, "lag")
+			opName := strings.TrimSuffix(op.Op, "lag")
+			if lag {
+				// the replica stays behind: one more commit reaches the local level-0 directory only
+				x.rows++
+				if _, err := x.sqldb.Exec("INSERT INTO t(v) VALUES(?)", bytes.Repeat([]byte{byte(x.rows)}, 300)); err != nil {
+					hx.Fatal(err)
+				}
+				if err := x.db.Sync(ctx); err != nil {
+					return "", "", ""
+				}
+				count("hist-lagging-retention")
+			} else {
+				// bring the replica up to date so that "latest" is the source state
+				if err := x.db.Sync(ctx); err != nil {
+					return "", "", ""
+				}
+				if err := x.db.Replica.Sync(ctx); err != nil {
+					return "", "", ""
+				}
 			}
 			before, err := listDir(x.fc, x.epoch)
 			if err != nil {
@@ -920,7 +943,7 @@ func runHistory(tmp string, drv *hx.Driver, h HCase, res *hx.Result) (kind, sig,
 						err = fmt.Errorf("PANIC: %v", p)
 					}
 				}()
-				if op.Op == "cascade" {
+				if opName == "cascade" {
 					line = fmt.Sprintf("rep OP=cascade EN=%d THR=%d LV=%d F=%s LOC=", b2i(h.Enabled), thr, h.LV, fmtFiles(before, true))
 					err = x.store.EnforceSnapshotRetention(ctx, x.db)
 				} else {
@@ -930,6 +953,9 @@ func runHistory(tmp string, drv *hx.Driver, h HCase, res *hx.Result) (kind, sig,
 			}()
 			if err != nil {
 				return "violation", "C07/retention-error", fmt.Sprintf("step %d: %s returned %v", i, op.Op, err)
+			}
+			if lag {
+				line += " LAG=1"
 			}
 			after, lerr := listDir(x.fc, x.epoch)
 			if lerr != nil {
@@ -954,6 +980,16 @@ func runHistory(tmp string, drv *hx.Driver, h HCase, res *hx.Result) (kind, sig,
 			b0, a0 := level(before, 0), level(after, 0)
 			if len(b0) > 0 && adjacent(b0) && (len(a0) == 0 || !adjacent(a0) || a0[len(a0)-1] != b0[len(b0)-1]) {
 				return "violation", "C07/l0-not-suffix", fmt.Sprintf("step %d: level-0 survivors %s of %s are not one contiguous run ending at the newest", i, fmtFiles(a0, false), fmtFiles(b0, false))
+			}
+			if lag {
+				// the replica catches up: what retention left (remote and local) must still carry the
+				// upload of the pending files, and the latest restore is then the source state
+				if err := x.db.Replica.Sync(ctx); err != nil {
+					return "violation", "C07/lagging-replica-cannot-catch-up", fmt.Sprintf("step %d: after %s on a lagging replica (deleted %s) Replica.Sync fails: %v", i, op.Op, fmtFiles(diff(before, after), false), err)
+				}
+				if got, gerr = x.restore("got2.db"); gerr != nil {
+					return "violation", "C07/latest-lost", fmt.Sprintf("step %d: after %s on a lagging replica and the catch-up Restore(latest) fails: %v", i, op.Op, gerr)
+				}
 			}
 			// source equality (logical): restored rows = source rows
 			tmpf := filepath.Join(x.dir, "cmp.db")
